@@ -243,9 +243,10 @@ func (j *Join) ParallelJoinFunc(l, r *HashedTable) ([]any, error) {
 			defer wg.Done()
 			defer func() {
 				if r := recover(); r != nil {
+					err := recoveredError(r)
 					mut.Lock()
 					if firstErr == nil {
-						firstErr = recoveredError(r)
+						firstErr = err
 					}
 					mut.Unlock()
 				}
@@ -345,9 +346,10 @@ func (j *Join) ParallelHashJoinFunc(l, r *HashedTable) ([]any, error) {
 			defer wg.Done()
 			defer func() {
 				if r := recover(); r != nil {
+					err := recoveredError(r)
 					mut.Lock()
 					if firstErr == nil {
-						firstErr = recoveredError(r)
+						firstErr = err
 					}
 					mut.Unlock()
 				}
